@@ -1882,7 +1882,10 @@ class Rule(metaclass=LogicalType):
             return None
         if issubclass(cls.__origin__, MAP_TYPES):
             return cls._parse_map_args
-        elif issubclass(cls.__origin__, SEQ_TYPES):
+        elif issubclass(cls.__origin__, SEQ_TYPES) or (
+            cls.__abstract__ and issubclass(cls.__origin__, typing.Iterable)
+        ):
+            # abstract origins (typing.Sequence[int], Iterable[int], ...) are given a list instance
             if issubclass(cls.__origin__, tuple) and not cls.__ellipsis_args__:
                 return cls._parse_tuple_args
             return cls._parse_seq_args
